@@ -2,8 +2,8 @@ SPECIFICATION Spec
 CONSTANTS
   MaxKids = 2
   MaxStr = 2
-  MaxTokens = 4
-  MaxNum = 5
+  MaxTokens = 3
+  MaxNum = 4
   DefectivePairs = FALSE
   BigLeaves = FALSE
   Modes = {"value", "string", "text", "number", "escape"}
